@@ -255,10 +255,6 @@ def signature(job, fail):
     if fail.get("desync"):
         return "desync|%s|%s|%s.%s:own≠record|dep=%s" % (lang, notation, ctrlk, "+".join(fail["desync"]), r["kind"])
     tags = list(r["tags"])
-    for t in ("pro=which", "pro=whom", "pro=P+lequel"):
-        if t in tags and "object-relative" in tags:
-            # these pronouns are always taken as the subject of their clause: the verb follows the antecedent
-            return "objrel-pronoun-taken-as-subject|%s|%s|%s" % (lang, notation, t)
     if "coord-vp" in tags and ctrlk == "CP" and fail.get("ctrl_n_before") is None:
         # the subject coordination had no number when the coordinated VPs were realized (S.real sets the default after)
         return "late-number|%s|%s|%s|coord-vp|CP-subject-without-number" % (lang, notation, r["kind"])
